@@ -28,7 +28,7 @@ RULE = ('cases = operations (dispatch / write / read / release) of access histor
         'while >= 2 wavefronts are co-resident in the store')
 DIRS = ['regfile']
 TSPEC = {'dirs': DIRS, 'module': 'RegFileTrace.tla', 'cfg': 'RegFileTrace.cfg', 'timeout': 1500}
-STRICT = 'RegFileTraceStrict.cfg'
+STRICT = 'RegFileTraceStrict.cfg'      # the intended design only (development aid, see design/C07.md)
 
 DEV_WHAT = {
     'EmuVcchiW1': 'emu.Wavefront.WriteReg(vcc_hi, RegCount 1) masks vcc with 0xffffffff00000000: the low half is cleared '
@@ -70,8 +70,18 @@ def rand_bytes(rng, n):
 def write_op(rng, w, k, i, c, lane):
     nb = wbytes(k, c)
     r = rng.random()
+    if k == 'scc':                              # architecturally one bit: only 0 and 1 are ever written
+        bit = rng.randrange(2)
+        if r < 0.3:
+            return {'op': 'W', 'api': 'SET', 'w': w, 'k': k, 'i': i, 'c': 0, 'lane': lane, 'd': [bit]}
+        if r < 0.7:
+            return {'op': 'W', 'api': 'WO', 'w': w, 'k': k, 'i': i, 'c': c, 'lane': lane, 'd': [bit] + [0] * 7}
+        return {'op': 'W', 'api': 'WB', 'w': w, 'k': k, 'i': i, 'c': c, 'lane': lane, 'd': [bit]}
     if (k, c) in (('vcclo', 2), ('execlo', 2), ('scc', 0)) and r < 0.25:
         return {'op': 'W', 'api': 'SET', 'w': w, 'k': k, 'i': i, 'c': c, 'lane': lane, 'd': rand_bytes(rng, nb)}
+    if k in ('s', 'v') and r > 0.88:
+        # the path the compute unit's load-return handlers and dispatcher use: the register file itself
+        return {'op': 'W', 'api': 'WF', 'w': w, 'k': k, 'i': i, 'c': c, 'lane': lane, 'd': rand_bytes(rng, nb)}
     if nb <= 8 and r < 0.6:
         return {'op': 'W', 'api': 'WO', 'w': w, 'k': k, 'i': i, 'c': c, 'lane': lane, 'd': rand_bytes(rng, 8)}
     return {'op': 'W', 'api': 'WB', 'w': w, 'k': k, 'i': i, 'c': c, 'lane': lane, 'd': rand_bytes(rng, nb)}
@@ -82,6 +92,8 @@ def read_op(rng, w, k, i, c, lane):
     r = rng.random()
     if (k, c) in (('vcclo', 2), ('execlo', 2), ('scc', 0)) and r < 0.2:
         return {'op': 'R', 'api': 'GET', 'w': w, 'k': k, 'i': i, 'c': c, 'lane': lane}
+    if k in ('s', 'v') and r > 0.9:
+        return {'op': 'R', 'api': 'RF', 'w': w, 'k': k, 'i': i, 'c': c, 'lane': lane, 'd': [0] * width(c)}
     if r < 0.55:
         return {'op': 'R', 'api': 'RO', 'w': w, 'k': k, 'i': i, 'c': c, 'lane': lane}
     n = rng.choice([nb, nb, 64, 1, 2, 3, 4, 8, max(1, nb - 1), rng.randrange(1, 65)])
@@ -104,6 +116,20 @@ def pick_operand(rng, ns, nv):
         return 'v', i, c, lane
     k, c = rng.choice(SPECIAL_OPS)
     return k, 0, c, 0
+
+
+def paint(rng, w, ns, nv):
+    """Non-zero values in the first and last register of a fresh wavefront (first and last lane): whatever a
+    neighbour's write, dispatch or release spills over the boundary hits a register whose change is visible."""
+    ops = []
+    for i in sorted({0, ns - 1}):
+        ops.append({'op': 'W', 'api': 'WB', 'w': w, 'k': 's', 'i': i, 'c': 1, 'lane': 0,
+                    'd': [rng.randrange(1, 256) for _ in range(4)]})
+    for lane in (0, 63):
+        for i in sorted({0, nv - 1}):
+            ops.append({'op': 'W', 'api': 'WB', 'w': w, 'k': 'v', 'i': i, 'c': 0, 'lane': lane,
+                        'd': [rng.randrange(1, 256) for _ in range(4)]})
+    return ops
 
 
 class Allocator:
@@ -154,7 +180,7 @@ def random_history(rng, sid, nops):
     live = {}
     ops = []
     nxt = 1
-    policy = rng.choice(['first', 'adjacent', 'adjacent', 'random', 'stride'])
+    policy = rng.choice(['first', 'adjacent', 'adjacent', 'random', 'stride', 'stride'])
     maxlive = rng.choice([1, 2, 3, 4])
 
     def dispatch():
@@ -172,6 +198,8 @@ def random_history(rng, sid, nops):
             nxt += 1
         if wfs:
             ops.append({'op': 'D', 'wfs': wfs, 'ns': ns, 'nv': nv, 'sx': rng.choice([1, 1, 1, 1, 64, 16])})
+            for p in wfs:
+                ops.extend(paint(rng, p['w'], ns, nv))
 
     dispatch()
     while len(ops) < nops:
@@ -247,6 +275,7 @@ def scale_behaviour(beh, rng, sid):
             ops.append({'op': 'D', 'ns': ns, 'nv': nv, 'sx': rng.choice([1, 1, 1, 64]),
                         'wfs': [{'w': a['w'], 'simd': simds[a['simd']], 'soff': sbase + a['soff'] * sblock * 4,
                                  'voff': vbase + a['voff'] * vblock * 4}]})
+            ops.extend(paint(rng, a['w'], ns, nv))
         elif a['a'] == 'X':
             live.pop(a['w'], None)
             ops.append({'op': 'X', 'w': a['w']})
@@ -473,8 +502,9 @@ def run(ctx, selftest=False):
     scen1 = [scale_behaviour(b, rng, i + 1) for i, b in enumerate(behs)]
     t1, st1 = run_driver(ctx, drv, scen1, 'scen')
     ctx.log('executed %d TLC behaviours on both stores: %s' % (len(scen1), st1))
-    ctx.sample({'history_from_TLC_behaviour': scen1[0]['ops'][:6]})
+    ctx.sample({'history_from_TLC_behaviour': scen1[0]['ops'][:1] + scen1[0]['ops'][7:12]})
     ok = validate(ctx, drv, t1, scen1)
+    ctx.log('behaviour traces validated')
 
     # 3. code -> spec: seeded random histories over the whole domain
     nrand = 400 if thorough else 60
@@ -483,9 +513,10 @@ def run(ctx, selftest=False):
     scen2 += [full_history(rng, 5000 + i, 40) for i in range(12 if thorough else 3)]
     t2, st2 = run_driver(ctx, drv, scen2, 'rand')
     ctx.log('executed %d random histories on both stores: %s' % (len(scen2), st2))
-    ctx.sample({'random_history_excerpt': scen2[0]['ops'][:6]})
+    ctx.sample({'random_history_excerpt': scen2[0]['ops'][:1] + scen2[0]['ops'][7:12]})
     if ok:
         ok = validate(ctx, drv, t2, scen2)
+        ctx.log('random traces validated')
 
     evals, ncl, nnt = measure(ctx, [t1, t2])
     some = vlib.split_traces(t2)[0][1]
@@ -508,15 +539,25 @@ def run(ctx, selftest=False):
 
 
 def replay(ctx, path):
+    """Re-execute the recorded history on the real stores: exit 1 iff the recorded failure shows again (a line the
+    specification cannot explain, or the recorded deviation of the intended design)."""
     rp = json.load(open(path))['replay']
     drv = ctx.go_build('c07')
     scen = rp['driver']['scenarios']
     t, _ = run_driver(ctx, drv, scen, 'replay')
-    v = ctx.validate_trace(DIRS, TSPEC['module'], STRICT, t, timeout=TSPEC['timeout'])
-    if v['accepted']:
-        print('replay: every answer of the real stores agrees with the flat model')
-        return 0
+    v = ctx.validate_trace(DIRS, TSPEC['module'], TSPEC['cfg'], t, timeout=TSPEC['timeout'])
     recs = [r for _, rs in vlib.split_traces(t) for r in rs]
-    at = v['highwater'] or 1
-    print('replay: rejected at event #%d: %s' % (at, json.dumps(recs[min(at, len(recs)) - 1])[:400]))
-    return 1
+    if not v['accepted']:
+        at = v['highwater'] or 1
+        print('replay: rejected at event #%d: %s' % (at, json.dumps(recs[min(at, len(recs)) - 1])[:400]))
+        return 1
+    devs = sorted({(int(m.group(1)), m.group(2)) for m in re.finditer(r'<<"DEVIATION", (\d+), "(\w+)">>', v['res'].out)})
+    want = rp.get('deviation')
+    hits = [(ln, n) for ln, n in devs if n == want]
+    if want and hits:
+        ln = hits[0][0]
+        print('replay: %s at event #%d: %s' % (DEV_WHAT.get(want, want), ln, json.dumps(recs[ln - 1])[:400]))
+        return 1
+    print('replay: every answer of the real stores agrees with the flat model%s' % (
+        ' (other listed deviations seen: %s)' % sorted({n for _, n in devs}) if devs else ''))
+    return 0
